@@ -25,6 +25,13 @@ logger = logging.getLogger('pyx12.error_997')
 logger.setLevel(logging.DEBUG)
 
 
+def _fixed_width(val, width):
+    """
+    Pad or cut a value to the width of its ISA element
+    """
+    return (val or '').ljust(width)[:width]
+
+
 class error_997_visitor(error_visitor.error_visitor):
     """
     Visit an error_handler composite.  Generate a 997.
@@ -67,17 +74,18 @@ class error_997_visitor(error_visitor.error_visitor):
         icvn = seg.get_value('ISA12')
         isa_seg = pyx12.segment.Segment('ISA*00*          *00*          ',
                                         self.seg_term, self.ele_term, self.subele_term)
-        isa_seg.append(seg.get_value('ISA07'))
-        isa_seg.append(seg.get_value('ISA08'))
-        isa_seg.append(seg.get_value('ISA05'))
-        isa_seg.append(seg.get_value('ISA06'))
+        # ISA elements are fixed width; the values come from a received ISA that may be malformed
+        isa_seg.append(_fixed_width(seg.get_value('ISA07'), 2))
+        isa_seg.append(_fixed_width(seg.get_value('ISA08'), 15))
+        isa_seg.append(_fixed_width(seg.get_value('ISA05'), 2))
+        isa_seg.append(_fixed_width(seg.get_value('ISA06'), 15))
         isa_seg.append(time.strftime('%y%m%d'))  # Date
         isa_seg.append(time.strftime('%H%M'))  # Time
-        isa_seg.append(seg.get_value('ISA11'))
-        isa_seg.append(icvn)
+        isa_seg.append(_fixed_width(seg.get_value('ISA11'), 1))
+        isa_seg.append(_fixed_width(icvn, 5))
         isa_seg.append(self.isa_control_num)  # ISA Interchange Control Number
         isa_seg.append('0') # No need for TA1 response to 997
-        isa_seg.append(seg.get_value('ISA15'))
+        isa_seg.append(_fixed_width(seg.get_value('ISA15'), 1))
         isa_seg.append(self.subele_term)
         self._write(isa_seg)
         self.isa_seg = isa_seg
